@@ -40,7 +40,7 @@ package rle
 //@   modifies w, HA(w.d)
 //@   ensures err == nil && sameOrFresh(w.d)
 //@   ensures[C07] bufOK(w) && w.i == max(old(w.i), off + #dat)
-//@   ensures[C07] forall j in 0..#dat: w.d[off + j] == dat[j]
+//@   ensures[C07] forall j in 0..#dat: w.d[off + j] == old(dat[j])
 
 // ---- encoder
 //
@@ -91,7 +91,8 @@ package rle
 //@   ensures[C07] old(r.headerPointer) != -1 ==> r.out.d[old(r.headerPointer)] == 2 * old(r.groupCount) + 1 && 2 * old(r.groupCount) + 1 < 128
 
 //@ func (*RLE).writeRLERun
-//@   requires rleShape(r) && openRun(r) && 0 <= r.repeatCount && r.repeatCount < 1073741824
+//@   requires rleShape(r) && openRun(r) && 0 <= r.repeatCount
+//@   free-requires r.repeatCount < 1073741824
 //@   safety[C07]
 //@   modifies r, r.out, HA(r.out.d)
 //@   ensures rleKeeps(r)
@@ -119,10 +120,12 @@ package rle
 //@   split r.bitWidth == 1
 //@   split r.bitWidth == 2
 //@   split r.bitWidth == 3
-//@   requires encInv(r) && r.repeatCount < 1073741824
+//@   requires encInv(r)
+//@   free-requires r.repeatCount < 1073741824
 //@   safety[C07]
 //@   modifies r, r.out, HA(r.out.d), HA(r.valBuf)
 //@   ensures[C07] r.headerPointer == -1 && r.groupCount == 0 && #res == 4 + r.out.i
+//@   ensures[C07] res[0] + 256*res[1] + 65536*res[2] + 16777216*res[3] == #res - 4
 //@ loop (*RLE).Bytes#1
 //@   invariant r.out == old(r.out) && r.valBuf == old(r.valBuf) && r.out.d == old(r.out.d) && 0 <= i
 //@   invariant[C07] rleShape(r) && openRun(r) && r.bufCount == old(r.bufCount) && r.bufCount <= i && r.repeatCount == old(r.repeatCount) && r.out.i == old(r.out.i)
